@@ -156,9 +156,21 @@ def _value(ix, m, e, cls):
 def validate_accepts(ix, prop: ClassInfo, init_norm: str, init_value) -> bool:
   """Type-level check that validate() accepts the initial value: the isinstance classes /
   special values tested by validate() include the initial value's class / member."""
+  # by interpretation where the initial value can be built and validate() is in the interpreted subset
+  from ..rules import probes as _pr
+  from ..rules.minieval import MiniEval as _ME
+  from ..consteval import Raised as _R
+  miv_ = prop.methods.get("make_initial_value")
+  if miv_ is not None:
+    try:
+      return _pr.call_validate(ix, prop, _ME(ix).call(miv_, [])) is True
+    except _R:
+      return False
+    except NotConst:
+      pass
   v = prop.methods.get("validate")
   if v is None:
-    return False
+    raise AnalysisError(f"StyleProperties.{prop.name}.validate is neither a method nor in the interpreted subset")
   txt = unparse(v.node)
   kind = init_norm.split(":")[0]
   want = {
